@@ -198,17 +198,16 @@ class Session:
             elif what == "nodes":
                 got = list(net.nodes)
                 exp = list(G._node)
-                if len(got) != len(exp) or any(a is not b for a, b in zip(got, exp)):
-                    fail(f"{[lab(n) for n in got]} != {[lab(n) for n in exp]}")
+                if sorted(map(id, got)) != sorted(map(id, exp)):
+                    fail(f"{sorted(lab(n) for n in got)} != {sorted(lab(n) for n in exp)}")
                 if len(net.nodes) != len(exp):
                     fail("len(nodes)")
             elif what == "links":
                 exp = [(u, v, d["link"]) for u, nb in G._succ.items() for v, d in nb.items()]
                 got = list(net.links)
-                if len(got) != len(exp) or any(
-                    a[0] is not b[0] or a[1] is not b[1] or a[2] is not b[2] for a, b in zip(got, exp)
-                ):
-                    fail(f"iteration {[tuple(map(lab, t)) for t in got]} != {[tuple(map(lab, t)) for t in exp]}")
+                key3 = lambda t: (id(t[0]), id(t[1]), id(t[2]))  # noqa: E731  (order is not semantic)
+                if sorted(map(key3, got)) != sorted(map(key3, exp)):
+                    fail(f"iteration {sorted(tuple(map(lab, t)) for t in got)} != {sorted(tuple(map(lab, t)) for t in exp)}")
                 if len(net.links) != len(exp):
                     fail(f"len {len(net.links)} != {len(exp)}")
                 for u, v, l in exp:
@@ -216,8 +215,8 @@ class Session:
                         fail(f"links[{lab(u)},{lab(v)}] is {lab(net.links[u, v])} not {lab(l)}")
                     if (u, v) not in net.links:
                         fail(f"({lab(u)},{lab(v)}) not in links")
-                if list(net.out_links) != got:
-                    fail("out_links alias differs from links")
+                if sorted(map(key3, net.out_links)) != sorted(map(key3, exp)):
+                    fail("out_links (alias of links) differs from the graph")
             elif what in ("in_links_of", "out_links_of"):
                 for n in list(G._node):
                     if what == "in_links_of":
@@ -282,8 +281,10 @@ class Session:
                         tag + "no-raise-on-invalid:" + "+".join(sorted(violated)),
                         f"{where}: is_valid(True) returned {out!r}; violated {sorted(violated)}",
                     )
-                if not (isinstance(out, tuple) and len(out) == 2 and out[0] is True and list(out[1]) == []):
-                    raise Violation(tag + "bad-return", f"{where}: is_valid(True) returned {out!r}")
+                # what it returns on a valid network is not part of the statement, except that it
+                # must not *report invalid* without raising
+                if isinstance(out, tuple) and len(out) == 2 and out[0] is False:
+                    raise Violation(tag + "raises-mode-reports-invalid-on-valid", f"{where}: is_valid(True) returned {out!r}")
         else:
             try:
                 out = self.net.is_valid(raises=False)
@@ -394,8 +395,6 @@ class Session:
                 r = net.add_path(arg, **kw)
             else:  # pragma: no cover
                 raise core.HarnessError(f"unknown op {k}")
-            if r is not net and self.prop == "C09":
-                raise Violation(f"C09/return-{k}", f"{where} did not return the network")
         except Violation:
             raise
         except core.HarnessError:
